@@ -1,4 +1,5 @@
 import Pyunicorn.Lemmas.Pure
+import Pyunicorn.Lemmas.PureWindow
 import Pyunicorn.Generated.StructC06
 /-!
 # C06 — Queries are pure: no interference, inputs are never modified
@@ -331,6 +332,111 @@ example : attrTableOK [("correlation", [.once "correlation" [("correlation", 5)]
       ["correlation", "cw_closeness", "dw_closeness", "cw_closeness"]
       = [[], [some 5], [some 0], [some 5]] := by decide
 
+/-! ### inside the method: the window between a temporary edit and its restore (round 5)
+
+`translate/windows_C06.py` turns the statement block around every restored edit of the current
+source into `WStep`s; `blockOK` (decidable) demands that while the edit is in place no code able to
+reach the object runs, that nothing which can raise or leave runs there unless a `finally` clause
+restores on every way out, that the mask is taken from the unedited content and not retaken, and
+that the block does not end with the edit in place.  In the semantics every computation and every
+call may raise and every exit may be taken (`ch` chooses); only the two stores of the edit forms
+and the mask statement are assumed to complete. -/
+
+/-- **A temporary edit is invisible and never left behind.**  For every block passing `blockOK`,
+every array operations `ops` whose restore undoes the edit on the content `x` (under the mask of
+`x` where the form uses one), every stale value `m0` of the mask variable and every choice `ch` of
+the statements that raise and the exits taken: when control leaves the block — by its end, a
+`return`, or an exception raised anywhere — the shared array holds exactly `x`, and every piece of
+code able to reach the object that ran in between (nested queries, properties, callbacks) saw
+exactly `x`, never the temporary content. -/
+theorem window_invisible {σ μ : Type} (ops : WOps σ μ) (nm : Bool) (x : σ)
+    (hlaw : ∀ m, (nm = true → m = ops.takeMask x) → ops.restore (ops.edit x m) m = x)
+    (steps : List WStep) (hc : blockOK nm steps = true) (m0 : μ) (ch : List Bool) :
+    (wexec ops (WState.start x m0) steps ch).cur = x ∧
+    ∀ o ∈ (wexec ops (WState.start x m0) steps ch).seen, o = x :=
+  wexec_inv ops nm x hlaw steps .normal [.closed] [] _ ch hc
+    ⟨by simp [WState.start], by simp [WState.start],
+     by intro _; exact ⟨rfl, .closed, by simp, rfl⟩⟩
+
+/-- form 1 (`average_path_length`, `closeness`): numpy boolean-mask assignment on the array, under
+the content hypothesis of `editRestoreMask_id` (every flagged entry is the constant written back —
+no `-inf` under `np.isinf`), for every temporary constant `c` -/
+theorem window_mask_invisible {α : Type} (flag : α → Bool) (c inf : α) (x : List α)
+    (h : ∀ e ∈ x, flag e = true → e = inf) (steps : List WStep)
+    (hc : blockOK true steps = true) (m0 : List Bool) (ch : List Bool) :
+    (wexec (maskOps flag c inf) (WState.start x m0) steps ch).cur = x ∧
+    ∀ o ∈ (wexec (maskOps flag c inf) (WState.start x m0) steps ch).seen, o = x :=
+  window_invisible (maskOps flag c inf) true x
+    (by intro m hm; rw [hm rfl]; exact setMask_setMask_self flag c inf x h) steps hc m0 ch
+
+/-- form 2 (`global_efficiency`): `np.fill_diagonal` on a matrix whose diagonal holds the constant
+written back -/
+theorem window_diag_invisible {α : Type} (a z : α) (x : List (List α))
+    (h : ∀ k (hk : k < x.length), k < (x[k]).length → (x[k])[k]? = some z) (steps : List WStep)
+    (hc : blockOK false steps = true) (ch : List Bool) :
+    (wexec (diagOps a z) (WState.start x ()) steps ch).cur = x ∧
+    ∀ o ∈ (wexec (diagOps a z) (WState.start x ()) steps ch).seen, o = x :=
+  window_invisible (diagOps a z) false x
+    (by intro m _; exact editRestoreDiag_id a z x h) steps hc () ch
+
+/-- **Histories.**  Any sequence of executions of checked blocks on one shared array (the three
+path measures in any order, any number of times, each completing, returning or raising anywhere)
+ends with the array holding its original content, and nothing able to reach the object ever saw
+another. -/
+theorem windows_preserve {σ μ : Type} (ops : WOps σ μ) (nm : Bool) (x : σ)
+    (hlaw : ∀ m, (nm = true → m = ops.takeMask x) → ops.restore (ops.edit x m) m = x)
+    (hist : List (List WStep × μ × List Bool))
+    (hc : ∀ h ∈ hist, blockOK nm h.1 = true) :
+    (wrunAll ops x hist).1 = x ∧ ∀ o ∈ (wrunAll ops x hist).2, o = x := by
+  induction hist with
+  | nil => simp [wrunAll]
+  | cons h t ih =>
+    obtain ⟨h1, h2⟩ := window_invisible ops nm x hlaw h.1 (hc h List.mem_cons_self) h.2.1 h.2.2
+    obtain ⟨i1, i2⟩ := ih (fun h' hh => hc h' (List.mem_cons_of_mem _ hh))
+    simp only [wrunAll, h1]
+    refine ⟨i1, ?_⟩
+    intro o ho
+    rcases List.mem_append.mp ho with ho | ho
+    · exact h2 o ho
+    · exact i2 o ho
+
+/-- the check is needed (content `[3, inf]`, `inf` coded `-1`, temporary constant `0`): a nested
+query inside the window is answered from the temporary content — protected or not … -/
+example : (wexec (maskOps (· == (-1 : Int)) 0 (-1)) (WState.start [3, -1] [])
+      [.mask, .edit, .tryB, .call "self.closeness()", .fin, .restore, .tryE] []).seen = [[3, 0]] ∧
+    blockOK true [.mask, .edit, .tryB, .call "self.closeness()", .fin, .restore, .tryE] = false := by
+  decide
+/-- … a computation that raises inside an unprotected window skips the restore (the blocks of
+`average_path_length` / `closeness` / `global_efficiency` before `fix:` round 5; numpy error state
+`raise`, warnings as errors, KeyboardInterrupt) … -/
+example : (wexec (maskOps (· == (-1 : Int)) 0 (-1)) (WState.start [3, -1] [])
+      [.mask, .edit, .comp, .restore, .exit "return"] [false, false, true]).cur = [3, 0] ∧
+    blockOK true [.mask, .edit, .comp, .restore, .exit "return"] = false := by decide
+/-- … a mask retaken from the edited content restores nothing, and so does a stale mask … -/
+example : (wexec (maskOps (· == (-1 : Int)) 0 (-1)) (WState.start [3, -1] [])
+      [.mask, .edit, .mask, .restore] []).cur = [3, 0] ∧
+    blockOK true [.mask, .edit, .mask, .restore] = false ∧
+    (wexec (maskOps (· == (-1 : Int)) 0 (-1)) (WState.start [3, -1] [true, false])
+      [.edit, .restore] []).cur = [-1, -1] ∧
+    blockOK true [.edit, .restore] = false := by decide
+/-- … a `finally` clause that can be reached before the mask exists restores with a stale mask -/
+example : blockOK true [.tryB, .comp, .mask, .edit, .comp, .fin, .restore, .tryE] = false := by
+  decide
+/-- satisfiable: the block of `closeness` as it stands (restore in a `finally` clause): with the
+computation raising, the restore runs and control leaves; without, the method's own computation
+does see the edit -/
+example : blockOK true [.comp, .call "self.path_lengths()", .comp, .mask, .edit, .tryB, .comp, .comp,
+      .fin, .restore, .tryE, .exit "return"] = true ∧
+    (wexec (maskOps (· == (-1 : Int)) 5 (-1)) (WState.start [3, -1] [])
+      [.mask, .edit, .tryB, .comp, .comp, .fin, .restore, .tryE, .exit "return"]
+      [false, false, false, true]).cur = [3, -1] ∧
+    (wexec (maskOps (· == (-1 : Int)) 5 (-1)) (WState.start [3, -1] [])
+      [.mask, .edit, .tryB, .comp, .comp, .fin, .restore, .tryE, .exit "return"]
+      [false, false, false, true]).left = true ∧
+    (wexec (maskOps (· == (-1 : Int)) 5 (-1)) (WState.start [3, -1] [])
+      [.mask, .edit, .tryB, .comp, .comp, .fin, .restore, .tryE, .exit "return"] []).own
+      = [[3, 5], [3, 5]] := by decide
+
 end Pyunicorn.Pure
 
 namespace Pyunicorn.Generated.StructC06
@@ -376,5 +482,40 @@ theorem generated_attr_queries_pure (c : String × List (String × List AStep))
     (hc : c ∈ attrTables) (qs : List String) :
     arun c.2 AState.init qs = qs.map (afresh c.2) :=
   attr_queries_pure c.2 (List.all_eq_true.mp attr_tables_ok c hc) qs
+
+/-- round 5: in every block of the current source that contains a restored temporary edit, no
+code able to reach the object runs while the edit is in place, and every way out — the end, a
+`return`, an exception raised by any computation — passes the restore (tables regenerated from
+the method bodies on every run) -/
+theorem windows_ok : windowsOK windows = true := by decide +kernel
+
+/-- every edit accepted as restored (`restores`, the `safe` entries of `effects`) has its block in
+`windows`, under the same form -/
+theorem restores_have_windows :
+    restores.all (fun r => windows.any fun w => w.site == r.1 && w.form == r.2) = true := by
+  decide +kernel
+
+/-- … hence, by `window_mask_invisible`: every execution of a form-1 block of the current source
+(`average_path_length`, `closeness`) on a path-length array without `-inf`, leaving in any
+way (end, `return`, exception anywhere), puts the cached array back and shows nobody the temporary content -/
+theorem generated_mask_windows_invisible {α : Type} (w : Window) (hw : w ∈ windows)
+    (hf : w.form = .maskInf) (flag : α → Bool) (c inf : α) (x : List α)
+    (h : ∀ e ∈ x, flag e = true → e = inf) (m0 : List Bool) (ch : List Bool) :
+    (wexec (maskOps flag c inf) (WState.start x m0) w.steps ch).cur = x ∧
+    ∀ o ∈ (wexec (maskOps flag c inf) (WState.start x m0) w.steps ch).seen, o = x := by
+  have hok := List.all_eq_true.mp windows_ok w hw
+  simp only [windowOK, hf, Restore.needsMask] at hok
+  exact window_mask_invisible flag c inf x h w.steps hok m0 ch
+
+/-- … and by `window_diag_invisible` for the form-2 blocks (`global_efficiency`) on a matrix with
+zero diagonal -/
+theorem generated_diag_windows_invisible {α : Type} (w : Window) (hw : w ∈ windows)
+    (hf : w.form = .diagInfZero) (a z : α) (x : List (List α))
+    (h : ∀ k (hk : k < x.length), k < (x[k]).length → (x[k])[k]? = some z) (ch : List Bool) :
+    (wexec (diagOps a z) (WState.start x ()) w.steps ch).cur = x ∧
+    ∀ o ∈ (wexec (diagOps a z) (WState.start x ()) w.steps ch).seen, o = x := by
+  have hok := List.all_eq_true.mp windows_ok w hw
+  simp only [windowOK, hf, Restore.needsMask] at hok
+  exact window_diag_invisible a z x h w.steps hok ch
 
 end Pyunicorn.Generated.StructC06
